@@ -444,6 +444,25 @@ fn run_case(target: &str, seed: u64, len: usize) -> (String, String) {
                     }
                 }
             }}; }
+            if t.starts_with("Linear::") {
+                // integer formats: exact at x == 0, within one LSB of the straight line and between the frames at x = k/8
+                let vals: [i32; 6] = [1_234_567_891, 16_777_217, -1_000_000_007, i32::MAX, i32::MIN, (rng.next() % 4_000_000_000) as i64 as i32];
+                let l = vals[(seed % 6) as usize]; let r = vals[((seed / 6) % 6) as usize];
+                for k in 0..8i128 {
+                    let o = Linear::new([l], [r]).interpolate(k as f64 / 8.0)[0];
+                    let d = 8 * (o as i128) - (8 * (l as i128) + (r as i128 - l as i128) * k);
+                    rec!(d > -8 && d < 8, true);
+                    rec!(o >= l.min(r) && o <= l.max(r), true);
+                    if k == 0 { rec!(o, l); }
+                }
+                let lu = (l as u32) ^ 0x8000_0000; let ru = (r as u32) ^ 0x8000_0000;
+                rec!(Linear::new([lu], [ru]).interpolate(0.0)[0], lu);
+                let mut li = Linear::new([l], [r]);
+                li.next_source_frame([7]);
+                rec!(li.interpolate(0.0)[0], r);
+                li.reset();
+                rec!(li.interpolate(0.5)[0], 0);
+            }
             if linear {
                 let a0 = sa.next(); let b0 = sa.next();
                 let mut li = Linear::new(a0, b0);
